@@ -109,6 +109,12 @@ class NameFixPass(ir.passes.InPlacePass):
         # Counters for generating unique names (using list to pass by reference)
         value_counter: collections.Counter[str] = collections.Counter()
         node_counter: collections.Counter[str] = collections.Counter()
+        # Names that are present somewhere in this graph (or its subgraphs) before the pass runs.
+        # A generated name must not take one of them: the value or node that carries it may be
+        # visited later, and a name that is already unique has to be kept.
+        self._reserved_value_names, self._reserved_node_names = _collect_existing_names(
+            graph_like
+        )
 
         def enter_graph(graph_like) -> None:
             """Callback for entering a subgraph."""
@@ -210,7 +216,9 @@ class NameFixPass(ir.passes.InPlacePass):
         )
 
         preferred_name = self._name_generator.generate_value_name(value)
-        value.name = _find_and_record_next_unique_name(preferred_name, used_names, counter)
+        value.name = _find_and_record_next_unique_name(
+            preferred_name, used_names, counter, self._reserved_value_names
+        )
         logger.debug("Assigned name %s to unnamed value", value.name)
         return True
 
@@ -223,7 +231,9 @@ class NameFixPass(ir.passes.InPlacePass):
         )
 
         preferred_name = self._name_generator.generate_node_name(node)
-        node.name = _find_and_record_next_unique_name(preferred_name, used_names, counter)
+        node.name = _find_and_record_next_unique_name(
+            preferred_name, used_names, counter, self._reserved_node_names
+        )
         logger.debug("Assigned name %s to unnamed node", node.name)
         return True
 
@@ -244,7 +254,9 @@ class NameFixPass(ir.passes.InPlacePass):
 
         # If name is already used, make it unique
         base_name = self._name_generator.generate_value_name(value)
-        value.name = _find_and_record_next_unique_name(base_name, used_names, counter)
+        value.name = _find_and_record_next_unique_name(
+            base_name, used_names, counter, self._reserved_value_names
+        )
         logger.debug("Renamed value from %s to %s for uniqueness", original_name, value.name)
         return True
 
@@ -263,17 +275,52 @@ class NameFixPass(ir.passes.InPlacePass):
 
         # If name is already used, make it unique
         base_name = self._name_generator.generate_node_name(node)
-        node.name = _find_and_record_next_unique_name(base_name, used_names, counter)
+        node.name = _find_and_record_next_unique_name(
+            base_name, used_names, counter, self._reserved_node_names
+        )
         logger.debug("Renamed node from %s to %s for uniqueness", original_name, node.name)
         return True
 
 
+def _collect_existing_names(
+    graph_like: ir.Graph | ir.Function,
+) -> tuple[set[str], set[str]]:
+    """Collect the value and node names present in a graph and all of its subgraphs."""
+    value_names: set[str] = set()
+    node_names: set[str] = set()
+
+    def collect_graph(graph) -> None:
+        values = [*graph.inputs, *graph.outputs]
+        if isinstance(graph, ir.Graph):
+            values.extend(graph.initializers.values())
+        value_names.update(value.name for value in values if value.name)
+
+    collect_graph(graph_like)
+    for node in ir.traversal.RecursiveGraphIterator(graph_like, enter_graph=collect_graph):
+        if node.name:
+            node_names.add(node.name)
+        for value in (*node.inputs, *node.outputs):
+            if value is not None and value.name:
+                value_names.add(value.name)
+    return value_names, node_names
+
+
 def _find_and_record_next_unique_name(
-    preferred_name: str, used_names: set[str], counter: collections.Counter[str]
+    preferred_name: str,
+    used_names: set[str],
+    counter: collections.Counter[str],
+    reserved_names: set[str] | frozenset[str] = frozenset(),
 ) -> str:
-    """Generate a unique name based on the preferred name and current counter."""
+    """Generate a unique name based on the preferred name and current counter.
+
+    The generated name differs from every name in ``used_names`` and, when it is not the
+    preferred name itself, from every name in ``reserved_names`` (names carried by objects
+    that have not been visited yet).
+    """
     new_name = preferred_name
-    while new_name in used_names:
+    while new_name in used_names or (
+        new_name != preferred_name and new_name in reserved_names
+    ):
         counter[preferred_name] += 1
         new_name = f"{preferred_name}_{counter[preferred_name]}"
     used_names.add(new_name)
